@@ -2,7 +2,7 @@
 # full mutant matrix: every kept sub-agent change against its property's check (+ related checks), 5 properties at a time
 run_one() {
   p=$1
-  case $p in C01) e="C02 C08";; C02) e="C10";; C03) e="C08 C09";; C04) e="C07";; C05) e="C12 C13 C04";; C06) e="C11 C14";; C07) e="C17 C04";; C08) e="C03";; C09) e="C03";; C10) e="C03";; C13) e="C05 C14";; C11) e="C05";; C14) e="C07";; C15) e="C17 C16";; C17) e="C16 C13";; C19) e="C18";; *) e="";; esac
+  case $p in C01) e="C02 C08";; C02) e="C10";; C03) e="C08 C09";; C04) e="C07";; C05) e="C12 C13 C04 C02";; C06) e="C11 C14";; C07) e="C17 C04 C09";; C08) e="C03";; C09) e="C03";; C10) e="C03 C01";; C13) e="C05 C14";; C11) e="C05";; C14) e="C07";; C15) e="C17 C16";; C17) e="C16 C13";; C19) e="C18";; *) e="";; esac
   /verif/tools/evalprop.sh $p $e
 }
 export -f run_one
